@@ -18,6 +18,12 @@ Theorem C04_ja_head_right : forall x y rs r, ternary x -> ternary y ->
   GenJa.apply_binary_rules x y None = Ok_ rs -> In r rs -> head_is_left r = false.
 Proof. intros x y rs r Tx Ty H Hin. exact (justified_head r x y (ja_sound x y rs r Tx Ty H Hin)). Qed.
 
+(* on EVERY pair of categories (no domain hypothesis): whatever is returned has the head on the right and the rule name that
+   goes with its symbol *)
+Theorem C04_ja_labels : forall x y rs r, GenJa.apply_binary_rules x y None = Ok_ rs -> In r rs ->
+  head_is_left r = false /\ ja_op_string (op_symbol r) = Some (op_string r).
+Proof. exact ja_labels. Qed.
+
 (* only the eleven symbols occur *)
 Theorem C04_ja_symbols : forall x y rs r, ternary x -> ternary y ->
   GenJa.apply_binary_rules x y None = Ok_ rs -> In r rs ->
